@@ -50,6 +50,8 @@ FIXED = [
   "`(and (not (and a b)) c)` with only c active evaluated to false: a nested operator list that is false as the last operand of a `not` (which is not at the end of the expression) made the `not` false"),
  ("F20", "C12", "fix: defseq stores right-hand shift / ctrl / meta in the folded form",
   "a defseq sequence written with `rsft` / `rctl` / `rmet` (or `RS-` / `RC-` / `RM-`) was accepted but could never be typed: the table stored the right-hand code, the run time folds to the left-hand code before the lookup (also seen by C11: name in defseq context)"),
+ ("F36", "C02", "fix: tap-dance with an empty action list is a configuration error",
+  "`(tap-dance 200 ())` / `(tap-dance-eager 200 ())` were accepted; the first press indexed the empty action list and panicked"),
 ]
 log = subprocess.check_output(["git", "-C", "/repo", "log", "--format=%h %s"]).decode().splitlines()
 out = []
